@@ -31,7 +31,7 @@
 #include "common/vf_interpose.h"
 
 #ifndef VF_C15_UNDEFINED_MEMBERS_FIXED
-#define VF_C15_UNDEFINED_MEMBERS_FIXED 0
+#define VF_C15_UNDEFINED_MEMBERS_FIXED 1
 #endif
 
 #include "babylon/concurrent/transient_topic.h"
